@@ -339,4 +339,6 @@ class StroquOOL(Algorithm):
             if node.get_mean_reward() >= max_value:
                 max_value = node.get_mean_reward()
                 max_node = node
+        if max_node is None:  # the cross-validation phase has not started yet
+            return self.curr_node.get_cpoint()
         return max_node.get_cpoint()
